@@ -690,3 +690,137 @@ def r09_14_period_unit_sets(ctx: Ctx) -> RuleResult:
             extra = [n for n in singles if (got or 0) & env[n] and not want & env[n]]
             rr.fail(c.qual, f"PeriodUnits.{name} = {got}: missing {missing}, unexpected {extra} (documented union is {want})", f"{c.mod.rel}:{c.node.lineno}")
     return rr
+
+
+# ------------------------------------------------------------------------------------------- R09.15 month addition is linear
+
+
+@rule("C09")
+def r09_15_month_addition_is_linear(ctx: Ctx) -> RuleResult:
+    """In a calendar whose years all have M months, adding k months moves the linear month index year * M + (month - 1) by exactly k
+    and leaves a month number in 1..M.  `_add_months` of every such calculator is evaluated by the abstract interpreter on exact
+    values (first / middle / last month, k up to several years either way, including every k that lands on month M or month 1)
+    and compared with that arithmetic.  (The Hebrew calendars have 12 or 13 months per year; they are decided by R09.11 / R09.12.)"""
+    from ..absint import Iv, Obj
+    from ..calendars import calculator_instances
+    from ..oblig import interp
+
+    rr = RuleResult("R09.15", "month addition moves the linear month index by exactly the number of months and yields a month in 1..months-per-year, for every calculator with a fixed number of months per year (abstract evaluation)", min_instances=8)
+    M = ctx.M
+    done = set()
+    for ci in calculator_instances(ctx):
+        if ci.cls in done or ci.cls == "_HebrewYearMonthDayCalculator":
+            continue
+        done.add(ci.cls)
+        cls = M.cls(ci.cls)
+        f = M.find_method(cls, "_add_months")
+        fm = M.find_method(cls, "_get_months_in_year")
+        if f is None or fm is None:
+            raise AnalysisError(f"{ci.cls}: _add_months / _get_months_in_year missing")
+        so = Obj(ci.cls, dict(ci.obj.fields))
+        y0 = (ci.min_year + ci.max_year) // 2
+        I = interp(ctx)
+        rets, _ = I.analyse(fm, self_obj=so, params={fm.value_params[0].arg: Iv(y0, y0)})
+        ms = {int(v.lo) for v, _x in rets if isinstance(v, Iv) and v.lo == v.hi}
+        if len(ms) != 1:
+            rr.inst()
+            rr.undecided.append(f"{ci.cls}: months per year not constant")
+            continue
+        mpy = ms.pop()
+        rr.inst()
+        bad = None
+        n = 0
+        box: list = []
+        stubs = {"_YearMonthDay._ctor": (lambda a, k, r: (box.append((k.get("year"), k.get("month"), k.get("day"))), Obj("_YearMonthDay", {"_year": k.get("year"), "_month": k.get("month"), "_day": k.get("day")}))[1])}
+        ks = sorted(set(range(-2 * mpy - 2, 2 * mpy + 3)) | {3 * mpy, 3 * mpy - 1, 4 * mpy, -3 * mpy, -4 * mpy + 1, 5 * mpy + 7})
+        for m in (1, 2, mpy // 2, mpy - 1, mpy):
+            for k in ks:
+                if k == 0:
+                    continue
+                box.clear()
+                I = interp(ctx)
+                I.max_depth = 6
+                I.stubs = stubs
+                ymd = Obj("_YearMonthDay", {"_year": Iv(y0, y0), "_month": Iv(m, m), "_day": Iv(1, 1)})
+                I.analyse(f, self_obj=so, params={f.value_params[0].arg: ymd, f.value_params[1].arg: Iv(k, k)})
+                rr.states += 1
+                n += 1
+                got = {(int(a.lo), int(b.lo)) for a, b, _c in box if isinstance(a, Iv) and isinstance(b, Iv) and a.lo == a.hi and b.lo == b.hi}
+                idx = y0 * mpy + (m - 1) + k
+                want = (idx // mpy, idx % mpy + 1)
+                if got != {want}:
+                    bad = bad or (m, k, sorted(got), want)
+        if bad is None:
+            rr.ok({"calculator": ci.cls, "months per year": mpy, "additions evaluated": n})
+        else:
+            rr.fail(f.qual, f"{ci.cls}: ({y0}, month {bad[0]}) + {bad[1]} months gives (year, month) {bad[2]}, the linear month index gives {bad[3]}", ctx.loc(f))
+    return rr
+
+
+# ------------------------------------------------------------------------------------------- R09.16 range check before table lookups
+
+
+def _year_indexed_lookup(M, h, depth: int) -> str | None:
+    """A subscript whose index is computed from the `year` parameter of h (or of a same-class callee that receives it), i.e. a
+    per-year table lookup that only has entries for the calendar's own years."""
+    ys = {p.arg for p in h.value_params if p.arg == "year"}
+    if not ys or isinstance(h.node, ast.Lambda):
+        return None
+    for n in own_nodes(h.node):
+        if isinstance(n, ast.Subscript) and isinstance(n.ctx, ast.Load) and any(isinstance(x, ast.Name) and x.id in ys for x in ast.walk(n.slice)):
+            return unparse(n)[:60]
+    if depth < 2 and h.cls is not None:
+        for n in own_nodes(h.node):
+            if isinstance(n, ast.Call) and isinstance(n.func, ast.Attribute) and isinstance(n.func.value, ast.Name) and n.func.value.id in ("self", "cls") and any(isinstance(a, ast.Name) and a.id in ys for a in n.args):
+                k = M.find_method(h.cls, mangle(h.cls.name, n.func.attr)) or M.find_method(h.cls, n.func.attr)
+                if k is not None and k is not h:
+                    r = _year_indexed_lookup(M, k, depth + 1)
+                    if r is not None:
+                        return r
+    return None
+
+
+@rule("C09")
+def r09_16_year_checked_before_it_is_looked_up(ctx: Ctx) -> RuleResult:
+    """Month / year arithmetic computes a target year and reports a result outside the calendar with OverflowError
+    (`if year < min_year or year > max_year: raise OverflowError`).  A calculator query made with that year BEFORE the guard is only
+    harmless if no implementation of the query can fail for an out-of-range year: calculators that keep per-year tables (Um Al
+    Qura, Persian astronomical) raise KeyError / IndexError from the table instead, so `plus_months` two or more years beyond the
+    range leaks the wrong exception type.  Every override of the queried method (and the same-class helpers it hands the year to)
+    is searched for a subscript indexed by the year."""
+
+    rr = RuleResult("R09.16", "in date arithmetic the computed year is range-checked before it is handed to a calculator query that can fail for years outside the calendar (every override of the query considered)", min_instances=2)
+    M = ctx.M
+    for f in sorted(set(M.func_of_node.values()), key=lambda x: x.qual):
+        if isinstance(f.node, ast.Lambda) or f.cls is None or "/calendars/" not in "/" + f.mod.rel:
+            continue
+        for g in own_nodes(f.node):
+            if not (isinstance(g, ast.If) and any(isinstance(x, ast.Raise) and "OverflowError" in unparse(x) for x in g.body) and "_min_year" in unparse(g.test) and "_max_year" in unparse(g.test)):
+                continue
+            vs = {x.id for x in ast.walk(g.test) if isinstance(x, ast.Name) and x.id not in ("self", "cls")}
+            if len(vs) != 1:
+                continue
+            v = vs.pop()
+            rr.inst()
+            bad = None
+            for c in own_nodes(f.node):
+                if isinstance(c, ast.Call) and isinstance(c.func, ast.Attribute) and isinstance(c.func.value, ast.Name) and c.func.value.id == "self" and c.lineno < g.lineno \
+                        and any(isinstance(a, ast.Name) and a.id == v for a in c.args):
+                    # every implementation of the queried method in the subclasses of this class (and the class itself)
+                    impls = []
+                    for lst in M.classes.values():
+                        for k in lst:
+                            if k is f.cls or M.is_subclass(k, f.cls.name):
+                                h = k.methods.get(c.func.attr) or k.methods.get(mangle(k.name, c.func.attr))
+                                if h is not None and not isinstance(h.node, ast.Lambda):
+                                    impls.append(h)
+                    for h in impls:
+                        lk = _year_indexed_lookup(M, h, 0)
+                        if lk is not None:
+                            bad = bad or (c, h, [lk])
+            if bad is None:
+                rr.ok({"function": f.qual, "year": v})
+            else:
+                c, h, leaks = bad
+                rr.fail(f.qual, f"`{unparse(c)[:70]}` is evaluated before `{v}` is checked against the calendar's year range, and {h.qual} looks the year up in a per-year table (`{leaks[0]}`): a result two or more years outside the calendar surfaces as KeyError / IndexError instead of OverflowError", ctx.loc(f, c))
+    return rr
